@@ -18,18 +18,18 @@ func init() {
 		Level:      "exploration",
 		Exhaustive: true,
 		Rule: "exhaustive: all valid commands with <=4 segments over segment alphabet {a,b,ab,''(non-final)} -> all ordered pairs (Covers vs segment-prefix model, Segments, reflexivity, antisymmetry, top), all ordered pairs of the 259 commands with <=3 segments over {é,è,ほ,ふ,a,éa} (UTF-8 encodings sharing lead bytes) and all triples of a 90-command subset (transitivity); " +
-			"parser: all strings of <=6 runes over {/,a,B,é,É,space} plus seeded random Unicode strings (alphabet where 'has a lower-case mapping' == 'is upper-case'); Join/New over non-empty slash-free segments. " +
+			"parser: all strings of <=6 runes over {/,a,B,é,É,space} plus seeded random Unicode strings (about 2000 runes of Latin, Greek, Cyrillic, Han, Deseret, Roman numerals, circled / full-width / mathematical letters on which the readings of 'upper-case letter' agree - Unicode property Uppercase == changed by lower-casing; each also offered once on its own); Join/New over non-empty slash-free segments. " +
 			"non-trivial = pair of different commands neither of which is '/', or a parser string containing '/' and another rune; distinct = the pair / the string.",
 		Assumptions: []string{
 			"reference: segment-prefix model ref.CmdCovers (25 lines), self-tested against the repository's TestCovers table",
-			"invalid UTF-8 and title-case runes are outside the generated alphabet (\"no upper-case letters\" is ambiguous there)",
+			"invalid UTF-8, title-case letters, capital letters without a lower-case form and squared capitals are outside the generated alphabet (\"no upper-case letters\" is ambiguous there; counted in the evidence)",
 		},
 		Shards:      shards(4, 16),
 		Run:         runC15,
 		MinEvals:    floor(100000, 500000),
 		MinDistinct: floor(50000, 100000),
 		RequiredCells: func(string) []string {
-			return []string{"rel/equal", "rel/parent", "rel/child", "rel/textual-prefix", "rel/sibling", "rel/top", "parse/accept", "parse/reject-noslash", "parse/reject-trailing", "parse/reject-upper", "join", "transitivity/chain", "non-ascii-pairs", "lookalike-pairs"}
+			return []string{"rel/equal", "rel/parent", "rel/child", "rel/textual-prefix", "rel/sibling", "rel/top", "parse/accept", "parse/reject-noslash", "parse/reject-trailing", "parse/reject-upper", "join", "transitivity/chain", "non-ascii-pairs", "lookalike-pairs", "parse/alphabet/other-uppercase"}
 		},
 	})
 	addSelfTest("R-cmd vs in-tree TestCovers vectors", selfTestCmd)
@@ -280,11 +280,26 @@ func runC15(w *mon.W) {
 	}
 	// parser: random unicode
 	var ualpha []rune
-	for _, rg := range [][2]rune{{0x20, 0x7e}, {0xc0, 0xff}, {0x391, 0x3c9}, {0x410, 0x44f}, {0x4e00, 0x4e10}} {
+	for _, rg := range [][2]rune{{0x20, 0x7e}, {0xc0, 0x24f}, {0x370, 0x3ff}, {0x410, 0x44f}, {0x4e00, 0x4e10}, {0x1f00, 0x1fff}, {0x2160, 0x217f}, {0x24b6, 0x24e9}, {0xff21, 0xff5a}, {0x10400, 0x1044f}, {0x1d400, 0x1d433}, {0x1f130, 0x1f149}} {
 		for r := rg[0]; r <= rg[1]; r++ {
-			if (unicode.ToLower(r) != r) == unicode.IsUpper(r) && !unicode.IsTitle(r) {
-				ualpha = append(ualpha, r)
+			if !unicode.IsPrint(r) {
+				continue
 			}
+			if ref.CaseUnambiguous(r) {
+				ualpha = append(ualpha, r)
+				if unicode.Is(unicode.Other_Uppercase, r) {
+					w.Cover("parse/alphabet/other-uppercase")
+				}
+			} else {
+				w.Count("parse/alphabet/ambiguous-case-not-judged", 1)
+			}
+		}
+	}
+	// every unambiguous rune once on its own, so that none depends on the random draw
+	for i, r := range ualpha {
+		if w.Mine(i) {
+			c15Parse(w, "/"+string(r))
+			c15Parse(w, "/a/"+string(r)+"b")
 		}
 	}
 	for i := 0; i < w.Share(w.Pick(40000, 600000)); i++ {
